@@ -36,6 +36,8 @@ STATES = {
     'Sta5': ('requestor', [U(convs.RQ_SPEC)], True),
     'Sta6-acc': ('acceptor', [B(convs.RQ_SPEC), U(convs.AC_SPEC)], True),
     'Sta6-req': ('requestor', [U(convs.RQ_SPEC), B(convs.AC_SPEC)], True),
+    # established, and the local user is in the middle of sending a three-fragment message when the bytes arrive
+    'Sta6-sending': ('acceptor', [B(convs.RQ_SPEC), U(convs.AC_SPEC)], True),
     'Sta7': ('requestor', [U(convs.RQ_SPEC), B(convs.AC_SPEC), U(convs.REL_RQ)], True),
     'Sta8': ('acceptor', [B(convs.RQ_SPEC), U(convs.AC_SPEC), B(convs.REL_RQ)], True),
     'Sta13': ('acceptor', [B(convs.RQ_SPEC), U(convs.AC_SPEC), U(convs.ABORT_SU)], False),
@@ -54,7 +56,7 @@ STATES = {
     'Sta12': ('acceptor', [B(convs.RQ_SPEC), U(convs.AC_SPEC), U(convs.REL_RQ), B(convs.REL_RQ), B(convs.REL_RP)], True),
 }
 STATE_NAMES = sorted(STATES)
-EXPECT_STATE = {'Sta2': 2, 'Sta2-accepting': 2, 'Sta2-serving': 2, 'Sta3': 3, 'Sta5': 5, 'Sta6-acc': 6, 'Sta6-req': 6, 'Sta7': 7, 'Sta8': 8, 'Sta13': 13,
+EXPECT_STATE = {'Sta2': 2, 'Sta2-accepting': 2, 'Sta2-serving': 2, 'Sta3': 3, 'Sta5': 5, 'Sta6-acc': 6, 'Sta6-req': 6, 'Sta6-sending': 6, 'Sta7': 7, 'Sta8': 8, 'Sta13': 13,
                 'Sta6-midmsg': 6, 'Sta6-cmd-file': 6, 'Sta6-data-file': 6, 'Sta6-cmd-mem': 6, 'Sta6-data-mem': 6, 'Sta9': 9, 'Sta10': 10, 'Sta11': 11, 'Sta12': 12}
 
 
@@ -130,8 +132,10 @@ def run_stream(state, stream, mode=0, file_backed=True):
             actions.append({'k': 'user', 'prim': convs.user_prim(s[1])})
     n_prefix = len(actions)
     segs = segment(stream, mode)
+    if state == 'Sta6-sending':
+        actions.append({'k': 'user', 'prim': convs.user_prim({'msg': convs.store_rq_pdus(2, pc_id=3)})})
     for i, sg in enumerate(segs):
-        actions.append({'k': 'seg', 'data': sg, 'eager': i > 0})
+        actions.append({'k': 'seg', 'data': sg, 'eager': i > 0 or state == 'Sta6-sending'})
     if state in ('Sta2-accepting', 'Sta2-serving'):
         actions.append({'k': 'user', 'fn': accept_if_indicated})
     if state == 'Sta2-serving':
@@ -182,9 +186,13 @@ def run_stream(state, stream, mode=0, file_backed=True):
                                       (mutate.invalid_pdata(frames[0]) and state != 'Sta13'))
     if hostile_first:
         # PDUs written after the prefix
-        npre = {'Sta2': 0, 'Sta2-accepting': 0, 'Sta2-serving': 0, 'Sta3': 0, 'Sta5': 1, 'Sta6-acc': 1, 'Sta6-req': 1, 'Sta7': 2, 'Sta8': 1, 'Sta13': 2,
+        npre = {'Sta2': 0, 'Sta2-accepting': 0, 'Sta2-serving': 0, 'Sta3': 0, 'Sta5': 1, 'Sta6-acc': 1, 'Sta6-req': 1, 'Sta6-sending': 1, 'Sta7': 2, 'Sta8': 1, 'Sta13': 2,
                 'Sta6-midmsg': 1, 'Sta6-cmd-file': 1, 'Sta6-data-file': 1, 'Sta6-cmd-mem': 1, 'Sta6-data-mem': 1, 'Sta9': 2, 'Sta10': 2, 'Sta11': 3, 'Sta12': 2}[state]
         after = pdus[npre:]
+        if state == 'Sta6-sending':
+            # fragments of the message being sent may precede the abort; nothing may follow it
+            while after and after[0]['t'] == 4:
+                after = after[1:]
         if not after or after[0]['t'] != 7:
             raise Violation('C12:no-abort', '%s: undecodable PDU (type %02XH, %d body bytes) not answered with A-ABORT; '
                             'wrote %r' % (state, frames[0][0], len(frames[0]) - 6, [p['t'] for p in after]), case)
